@@ -408,3 +408,158 @@ def beta(prog, t, depth=3):
             return (x[0], x[1], args) + tuple(x[3:])
         return tuple(go(a, d) if isinstance(a, tuple) else a for a in x)
     return go(t, depth)
+
+
+# ------------------------------------------------------------------ partial evaluation under an assumed variant
+PTR_PREDICATES = {
+    "is_neg": lambda v: v in ("Compl", "ComplBDD"),
+    "is_false": lambda v: v == "PtrFalse",
+    "is_true": lambda v: v == "PtrTrue",
+    "is_const": lambda v: v in ("PtrTrue", "PtrFalse"),
+}
+
+
+def _const_bool(b):
+    return ("const", "bool", "1" if b else "0")
+
+
+def _as_bool(t):
+    t = strip(t)
+    if isinstance(t, tuple) and t and t[0] == "const" and str(t[2]) in ("0", "1", "false", "true"):
+        return str(t[2]) in ("1", "true")
+    return None
+
+
+def assume_variant(te, t, x, vname, preds=PTR_PREDICATES):
+    """t with every test on the variant of term x resolved for x being variant `vname`: predicate calls
+    (is_neg(x), is_false(x), ..) become constants, choices on discr(x) and on constant conditions are taken,
+    `!const` is folded"""
+    x = _peel(x)
+
+    def is_x(a):
+        return _peel(a) == x
+
+    def go(u):
+        if not isinstance(u, tuple) or not u:
+            return u
+        if u[0] == "call":
+            if u[1].name in preds and u[2] and is_x(u[2][-1]):
+                return _const_bool(preds[u[1].name](vname))
+            return (u[0], u[1], tuple(go(a) for a in u[2])) + tuple(u[3:])
+        if u[0] == "un" and u[1] == "Not":
+            inner = go(u[2])
+            b = _as_bool(inner)
+            return _const_bool(not b) if b is not None else ("un", "Not", inner) + tuple(u[3:])
+        if u[0] == "gamma":
+            c = strip(u[1])
+            if isinstance(c, tuple) and c and c[0] == "discr" and is_x(c[1]):
+                vm = te._discr_variants.get(u[1]) or te._discr_variants.get(c) or {}
+                for lab, v in u[2]:
+                    if isinstance(lab, str) and vm.get(lab) == vname:
+                        return go(v)
+                for lab, v in u[2]:
+                    if isinstance(lab, tuple) and lab[0] == "in" and any(vm.get(l_) == vname for l_ in lab[1]):
+                        return go(v)
+                for lab, v in u[2]:
+                    if isinstance(lab, tuple) and lab[0] == "not" and all(vm.get(l_) != vname for l_ in lab[1]):
+                        return go(v)
+                return ("gamma", u[1], tuple((l_, go(v)) for l_, v in u[2])) + tuple(u[3:])
+            cond = go(u[1])
+            b = _as_bool(cond)
+            if b is not None:
+                for lab, v in u[2]:
+                    if (lab == "0") == (not b) and isinstance(lab, str):
+                        return go(v)
+                for lab, v in u[2]:
+                    if isinstance(lab, tuple) and lab[0] == "not" and (("0" in lab[1]) == b):
+                        return go(v)
+            return ("gamma", cond, tuple((l_, go(v)) for l_, v in u[2])) + tuple(u[3:])
+        return tuple(go(a) if isinstance(a, tuple) else a for a in u)
+    return go(t)
+
+
+def feasible_alternatives(te, phi, x, vname, preds=PTR_PREDICATES):
+    """alternatives of a join whose source block is not ruled out, by its dominating facts, for x being `vname`"""
+    out = []
+    for pb, v in phi[2]:
+        pbn = int(str(pb).replace("bb", "")) if not isinstance(pb, int) else pb
+        ok = True
+        for c, val, vm, _ in te.facts_at(pbn):
+            cc = strip(c)
+            if isinstance(cc, tuple) and cc and cc[0] == "discr" and _peel(cc[1]) == _peel(x) and vm:
+                names = [vm.get(val)] if isinstance(val, str) else \
+                    [n for k_, n in vm.items() if isinstance(val, tuple) and val[0] == "not" and k_ not in val[1]]
+                if vname not in names:
+                    ok = False
+                continue
+            b = _as_bool(assume_variant(te, c, x, vname, preds))
+            if b is not None and b != (val != "0"):
+                ok = False
+        if ok:
+            out.append(v)
+    return out
+
+
+def paths_under(fn, x, vname, preds=PTR_PREDICATES, max_paths=64):
+    """the values fn can return when the term x is of variant `vname`: the CFG is walked, every branch whose condition
+    folds to a constant under that assumption takes its one successor (others fork), joins are resolved by the path
+    walked.  Returns a list of return terms (choices on x already resolved), or None on path explosion / loops."""
+    te, cfg = fn.terms, fn.cfg
+    results = []
+
+    def pick(t, vm, c):
+        cc = strip(c)
+        if isinstance(cc, tuple) and cc and cc[0] == "discr" and _peel(cc[1]) == _peel(x) and vm:
+            for lab, s in t["targets"]:
+                if vm.get(lab) == vname:
+                    return [s]
+            return [t["otherwise"]]
+        b = _as_bool(assume_variant(te, c, x, vname, preds))
+        if b is None:
+            return None
+        for lab, s in t["targets"]:
+            if (lab != "0") == b and lab in ("0", "1"):
+                return [s]
+        return [t["otherwise"]]
+
+    def resolve(u, path):
+        u = strip(u)
+        if not isinstance(u, tuple) or not u:
+            return u
+        if u[0] == "phi":
+            best = None
+            for pb, v in u[2]:
+                pbn = int(str(pb).replace("bb", "")) if not isinstance(pb, int) else pb
+                if pbn in path:
+                    i = len(path) - 1 - path[::-1].index(pbn)
+                    if best is None or i > best[0]:
+                        best = (i, v)
+            return resolve(best[1], path) if best else u
+        if u[0] == "call":
+            return (u[0], u[1], tuple(resolve(a, path) for a in u[2])) + tuple(u[3:])
+        return tuple(resolve(a, path) if isinstance(a, tuple) else a for a in u)
+
+    def walk(b, path):
+        if len(results) > max_paths or len(path) > 200:
+            raise OverflowError()
+        path = path + [b]
+        t = fn.blocks[b]["term"]
+        if t["k"] == "return":
+            results.append(assume_variant(te, resolve(te.ret, path), x, vname, preds))
+            return
+        if t["k"] == "switch" and b in te.switch_term:
+            c, vm = te.switch_term[b]
+            nxt = pick(t, vm, c)
+            if nxt is None:
+                nxt = list(dict.fromkeys([s for _, s in t["targets"]] + [t["otherwise"]]))
+        else:
+            nxt = list(cfg.succ[b])
+        for s in nxt:
+            if s in path or fn.blocks[s]["term"]["k"] == "unreachable":
+                continue
+            walk(s, path)
+    try:
+        walk(0, [])
+    except (OverflowError, RecursionError):
+        return None
+    return results
